@@ -145,8 +145,8 @@ type compiler struct {
 	Optimize    bool
 	Returns     []int
 	FuncName    string
-	typeScope   string // prefix of the globals that hold the types declared in the current function
-	inits       int    // number of init functions of the package compiled so far
+	typeScope   string      // prefix of the globals that hold the types declared in the current function
+	inits       int         // number of init functions of the package compiled so far
 	localTypes  []localType // the types declared in the open blocks, innermost last
 }
 
